@@ -397,3 +397,5 @@ def check(ctx, rep):
     rep.floor('STRIP', 'functions summing mass() over split() pieces in fragmentation.py', len(sites), 1)
     for f in sites:
         strip_rule(ctx, rep, f.fq, 'C04f')
+    from .common import memo_rule
+    memo_rule(ctx, rep, 'C04g', ('peptacular.fragmentation', 'peptacular.mass_calc'))
